@@ -105,6 +105,22 @@ namespace nmtools::meta
         struct INDEX_COMPUTE_STRIDE_UNSUPPORTED : detail::fail_t{};
     } // namespace error
     
+    namespace detail
+    {
+        // a stride is a product of extents, it is not bounded by the bound of a single clipped extent
+        template <typename T, typename=void>
+        struct stride_element_type
+        {
+            using type = T;
+        };
+
+        template <typename T>
+        struct stride_element_type<T,enable_if_t<is_clipped_integer_v<T>>>
+        {
+            using type = typename T::value_type;
+        };
+    } // namespace detail
+
     template <typename shape_t>
     struct resolve_optype<
         void, index::compute_strides_t, shape_t
@@ -112,7 +128,7 @@ namespace nmtools::meta
     {
         static constexpr auto vtype = [](){
             [[maybe_unused]] constexpr auto DIM = len_v<shape_t>;
-            using index_type [[maybe_unused]] = get_index_element_type_t<shape_t>;
+            using index_type [[maybe_unused]] = type_t<detail::stride_element_type<get_index_element_type_t<shape_t>>>;
             if constexpr (is_maybe_v<shape_t>) {
                 using shape_type = remove_cvref_t<get_maybe_type_t<shape_t>>;
                 using type = nmtools_maybe<resolve_optype_t<index::compute_strides_t,shape_type>>;
